@@ -23,6 +23,13 @@ ASSUMPTIONS = ["same exclusions as C01/C02 (mixed-kind equal values, NaN; known 
 OPTS = [{}, {"indent": 2, "sort_keys": True}]
 
 
+def spec_read_xml(text):
+    from harness import xmltree
+    t = xmltree.tree_of(text)
+    ft = I.float_table([["str", x] for x in sorted(xmltree.leaf_texts(t, set()))])
+    return loads(common.run_model_batch([dumps(["xmlspec", ft, t])])[0])
+
+
 def spec_read_json(tree):
     req = dumps(["jsonspec", I.float_table(tree), tree])
     out = common.run_model_batch([req])[0]
@@ -37,6 +44,7 @@ class C10Oracle(worldprop.Oracle):
     def finish(self, ops):
         for i in range(len(self.im.docs)):
             self.check(len(ops), i)
+            self.check_xml(len(ops), i)
 
     def check(self, idx, di):
         d = self.im.docs[di]
@@ -59,6 +67,30 @@ class C10Oracle(worldprop.Oracle):
             if got != want:
                 self.fail(idx, "the specification reader recovers another content from the emitted PROV-JSON", doc=di,
                           feats=sorted(c01.diagnose(d)), got=dumps(got)[:700], want=dumps(want)[:700])
+                return
+
+
+    def check_xml(self, idx, di):
+        from harness.props import c02
+        d = self.im.docs[di]
+        if c01.has_mixed_kinds(d) or not c02.expressible(d):
+            return
+        want = canon_content(content_doc(d))
+        for ft in (False, True):
+            try:
+                text = d.serialize(format="xml", force_types=ft)
+            except Exception as e:
+                self.fail(idx, "serialize(format='xml') raised", doc=di, exc=repr(e)[:300], feats=sorted(c01.diagnose(d)))
+                return
+            got = spec_read_xml(text)
+            if got == ["none"]:
+                self.fail(idx, "the emitted PROV-XML is not readable by the specification reader", doc=di, force_types=ft,
+                          feats=sorted(c01.diagnose(d)), text=text[:900])
+                return
+            got = canon_content(got)
+            if got != want:
+                self.fail(idx, "the specification reader recovers another content from the emitted PROV-XML", doc=di,
+                          force_types=ft, feats=sorted(c01.diagnose(d)), got=dumps(got)[:700], want=dumps(want)[:700])
                 return
 
 
